@@ -122,6 +122,10 @@ namespace occa {
       errors   = 0;
 
       tokenizer = NULL;
+
+      lastMacroEndToken = NULL;
+      lastMacroEnds.clear();
+      pendingMacroEnds.clear();
     }
 
     void preprocessor_t::clear() {
@@ -558,8 +562,16 @@ namespace occa {
       tokenVector tokens;
       macro.expand(tokens, source);
 
+      // Macros whose expansion ended at the ) of this call
+      macroVector pendingMacros;
+      pendingMacros.swap(pendingMacroEnds);
+
       const int tokenCount = (int) tokens.size();
       if (!tokenCount) {
+        const int pendingCount = (int) pendingMacros.size();
+        for (int i = 0; i < pendingCount; ++i) {
+          expandedMacros.erase(pendingMacros[i]);
+        }
         return;
       }
 
@@ -570,6 +582,9 @@ namespace occa {
         tokenMacros = it->second;
         expandedMacroEnd.erase(it);
       }
+      tokenMacros.insert(tokenMacros.end(),
+                         pendingMacros.begin(),
+                         pendingMacros.end());
       // Set expanded macro info
       expandedMacros[&macro] = true;
       tokenMacros.push_back(&macro);
@@ -581,6 +596,9 @@ namespace occa {
     }
 
     void preprocessor_t::clearExpandedMacros(token_t *token) {
+      lastMacroEndToken = NULL;
+      lastMacroEnds.clear();
+
       macroEndMap::iterator it = expandedMacroEnd.find(token);
       if (it == expandedMacroEnd.end()) {
         return;
@@ -591,7 +609,28 @@ namespace occa {
       for (int i = 0; i < count; ++i) {
         expandedMacros.erase(macros[i]);
       }
+      lastMacroEndToken = token;
+      lastMacroEnds = macros;
       expandedMacroEnd.erase(it);
+    }
+
+    // The ) that closes a macro call can be the last token of enclosing
+    //   macro expansions: the result of the call still belongs to them,
+    //     #define F(x) G(x)
+    //     #define G(x) F(x)
+    //   F(1) -> G(1) -> F(1), where F must not be expanded again
+    void preprocessor_t::keepExpandedMacrosAfter(token_t *closingToken) {
+      if (!closingToken ||
+          (closingToken != lastMacroEndToken)) {
+        return;
+      }
+      const int count = (int) lastMacroEnds.size();
+      for (int i = 0; i < count; ++i) {
+        expandedMacros[lastMacroEnds[i]] = true;
+        pendingMacroEnds.push_back(lastMacroEnds[i]);
+      }
+      lastMacroEndToken = NULL;
+      lastMacroEnds.clear();
     }
 
     void preprocessor_t::skipToNewline() {
@@ -802,6 +841,12 @@ namespace occa {
         pushOutput(&token);
         return;
       }
+      // Expansions that end at the macro name are over
+      //   before the arguments are read:
+      //     #define A F
+      //     #define F(x) A x
+      //   A(1) -> F(1) -> A 1 -> F 1
+      clearExpandedMacros(&token);
       // Make sure that the macro starts with a '('
       token_t *nextToken = NULL;
       (*this) >> nextToken;
